@@ -388,7 +388,7 @@ pub fn run(ctx: &Ctx) -> i32 {
         tier,
         seed: ctx.seed,
         level: "exploration",
-        rule: "E2: 2 (thorough 12) real-socket stress runs: 3 Networks on UDP loopback, a 6-worker runtime, 18 RPC generators with 24 calls in flight each (bodies up to 200 KB), concurrent dial/disconnect churn, 2.5 s (thorough 15 s) each, same oracle. E1: scenario = 2-3 real Networks on the fabric, 1-200 concurrent RPCs in both directions with unique ids, seeded sizes (0 B - multi-MB, packet-boundary biased), header maps, routes, statuses, randomised handler completion order, one fault class; oracle = offline check of the merged call/return/start/finish history (at-most-once, request integrity, response integrity+pairing, no response from nowhere); non-trivial = at least one RPC succeeded; distinct by (concurrency bucket, max body bucket, fault class, out-of-order bucket)".into(),
+        rule: "E2: 2 (thorough 12) real-socket stress runs: 3 Networks on UDP loopback, a 6-worker runtime, 18 RPC generators with 24 calls in flight each (bodies up to 200 KB), concurrent dial/disconnect churn, 2.5 s (thorough 15 s) each, same oracle. E1: scenario = 2-3 real Networks on the fabric, 1-200 concurrent RPCs in both directions with unique ids, seeded sizes (0 B - multi-MB, packet-boundary biased), header maps, routes, statuses, randomised handler completion order, one fault class; oracle = offline check of the merged call/return/start/finish history (at-most-once, request integrity, response integrity+pairing, no response from nowhere); non-trivial = at least one RPC succeeded; distinct by (concurrency bucket, max body bucket, fault class, out-of-order bucket) In 40% of the E1 scenarios 2-7 look-alike request pairs follow (one route, same header count; header maps that differ only in where names end and values begin - equal multisets of name||value incl. mirrored id headers -, swapped values, one byte of a long value, name/value exchanged), back to back and concurrently from one node; routes and header text also come from a hostile-text generator (1-4 byte UTF-8 across every byte offset < 300).".into(),
         assumptions: vec![
             "body equality is decided on (length, 64-bit SipHash)".into(),
             "loss/reordering/duplication are injected below QUIC on the simulated fabric".into(),
